@@ -6,11 +6,8 @@ SITES = [
     dict(id="C13.brier_ens_cell", group="C13_kern", kind="custom", fn=W.kernel_site,
          file="probability/brier_impl.py", func="brier_score_for_ensemble",
          params={"member_event_count": "num", "total_member_count": "num", "binary_obs": "num", "fair_correction": "bool"},
-         # the three counting statements are hand-modelled (list folds); their exact source text is pinned here
-         rewrites={"params_from": {
-             "member_event_count": "event_threshold_operator(fcst, thresholds_xr).sum(dim=ensemble_member_dim)",
-             "total_member_count": "fcst.notnull().sum(dim=ensemble_member_dim)",
-             "binary_obs": "binary_discretise(obs, event_thresholds, event_threshold_operator)"}},
+         # the counting statements before the formula are hand-modelled (list folds) and tied by correspondence
+         rewrites={"body_from": "result = ("},
          outputs=["result"], stop_before="apply_weights", name="gen_brier_ens_cell"),
     dict(id="C13.sqerr", group="C13_kern", kind="custom", fn=W.kernel_site,
          file="continuous/standard_impl.py", func="mse",
